@@ -126,6 +126,21 @@ class Builtin:
         return "<builtin %s>" % self.name
 
 
+class CtxGen:
+    """what a @contextlib.contextmanager function returns when called: the generator, not yet started"""
+
+    def __init__(self, func, locs):
+        self.func = func
+        self.locs = locs
+
+
+class ExitStackVal:
+    """contextlib.ExitStack(): callbacks run in reverse order when the with block (or close()) ends"""
+
+    def __init__(self):
+        self.callbacks = []
+
+
 class GenVal:
     """a one-shot iterator over already computed items"""
 
